@@ -241,3 +241,85 @@ def _cli_builtins(interp):
     except Exception:
         pass
     return t
+
+
+# ------------------------------------------------------------------------------------------------
+_B = _z3.BoolSort()
+f_all_true = _z3.Function("all_flags_true", _z3.ArraySort(_Str, _B), _z3.ArraySort(_Str, _B), _B)
+
+
+def flags_all(interp, has, val, keys=()):
+    """all(table.values()) for a str -> bool table given by (has, val): the uninterpreted
+    predicate all_flags_true(has, val), pinned down by instances of its definition
+        all_flags_true(has, val)  <=>  forall k. has[k] => val[k]
+    at the keys in play (=>) and at a witness of its negation (<=)."""
+    ctx = interp.ctx
+    r = f_all_true(has, val)
+    for k in keys:
+        ctx.assume(_z3.Implies(r, _z3.Implies(_z3.Select(has, k), _z3.Select(val, k))))
+    w = ctx.fresh("flag_witness", _Str)
+    ctx.assume(_z3.Implies(_z3.Not(r), _z3.And(_z3.Select(has, w), _z3.Not(_z3.Select(val, w)))))
+    return r
+
+
+@register(name="pyvc:FlagTable")
+class FlagTableModel:
+    """Dict[str, bool] of any size (DispatcherMiddleware.startup_complete / shutdown_complete: one
+    flag per mount).  State: has, val : Array(String, Bool).  Other tasks (the send() calls of the
+    other mounts) only ever set flags: across a suspension entries stay and True stays True
+    (assumed rely of the table, which every send() of the class guarantees: obligation
+    C20.fanout.marks-only-own)."""
+
+    def symbolic(self, interp, name):
+        from .sym import SObj
+
+        ctx = interp.ctx
+        A = _z3.ArraySort(_Str, _B)
+        return SObj("pyvc:FlagTable", {"has": ctx.fresh(name + ".has", A), "val": ctx.fresh(name + ".val", A), "keys": []}, tag=name)
+
+    def m___setitem__(self, interp, obj, args, kwargs, fr):
+        from . import ops
+        from .sym import str_to_z3
+
+        k = str_to_z3(args[0])
+        t = ops.truth(interp.ctx, args[1])
+        tz = _z3.BoolVal(t) if isinstance(t, bool) else t
+        obj.fields["has"] = _z3.Store(obj.fields["has"], k, _z3.BoolVal(True))
+        obj.fields["val"] = _z3.Store(obj.fields["val"], k, tz)
+        obj.fields["keys"] = obj.fields["keys"] + [k]
+        return None
+
+    def m___getitem__(self, interp, obj, args, kwargs, fr):
+        from .ops import mk_exc
+        from .sym import SymBool, str_to_z3
+
+        k = str_to_z3(args[0])
+        if not interp.ctx.branch(_z3.Select(obj.fields["has"], k), f"flag-known@{fr.line}"):
+            raise mk_exc(KeyError, "no such mount", where=fr.where())
+        obj.fields["keys"] = obj.fields["keys"] + [k]
+        return SymBool(_z3.Select(obj.fields["val"], k))
+
+    def m_values(self, interp, obj, args, kwargs, fr):
+        from .sym import SObj
+
+        return SObj("pyvc:FlagValues", {"has": obj.fields["has"], "val": obj.fields["val"], "keys": list(obj.fields["keys"])}, tag="flags")
+
+    def havoc(self, interp, obj):
+        ctx = interp.ctx
+        A = _z3.ArraySort(_Str, _B)
+        h0, v0 = obj.fields["has"], obj.fields["val"]
+        h1, v1 = ctx.fresh((obj.tag or "flags") + ".has'", A), ctx.fresh((obj.tag or "flags") + ".val'", A)
+        for k in obj.fields["keys"]:
+            ctx.assume(_z3.And(_z3.Implies(_z3.Select(h0, k), _z3.Select(h1, k)), _z3.Implies(_z3.And(_z3.Select(h0, k), _z3.Select(v0, k)), _z3.Select(v1, k))))
+        ctx.assumptions_used.add("flag tables of DispatcherMiddleware: while a send() is suspended other tasks only set flags (entries stay, True stays True)")
+        obj.fields["has"], obj.fields["val"] = h1, v1
+
+
+@register(name="pyvc:FlagValues")
+class FlagValuesModel:
+    """table.values(): only all() / any() are defined on it"""
+
+    def quantify_all(self, interp, obj):
+        from .sym import SymBool
+
+        return SymBool(flags_all(interp, obj.fields["has"], obj.fields["val"], obj.fields["keys"]))
